@@ -873,6 +873,12 @@ func (e *Enc) midAsserts(fr *Frame, x *ssa.Call, st *State) {
 		}
 		q := e.oblige("assert", a.cl.label, st, t, x.Pos(), e.inputVals()...)
 		q.Text = a.cl.text
+		if len(a.cl.props) > 0 {
+			if e.qProps == nil {
+				e.qProps = map[string][]string{}
+			}
+			e.qProps[q.Name] = a.cl.props
+		}
 	}
 }
 
